@@ -34,6 +34,7 @@ type Fld struct {
 	ID    int    `json:"id"`
 	Name  string `json:"name"`
 	Alias string `json:"alias,omitempty"`
+	Body  string `json:"body,omitempty"` // api.body annotation (changes the alias only at the root of a request / response, under ApiBodyFastPath)
 	Req   int    `json:"req,omitempty"`
 	T     *Ty    `json:"t"`
 	Text  string `json:"text"` // type as written
@@ -302,8 +303,13 @@ func renderFields(b *strings.Builder, fs []Fld) {
 				fmt.Fprintf(b, " = %s", f.Def.S)
 			}
 		}
-		if f.Alias != "" {
+		switch {
+		case f.Alias != "" && f.Body != "":
+			fmt.Fprintf(b, " (api.key = %q, api.body = %q)", f.Alias, f.Body)
+		case f.Alias != "":
 			fmt.Fprintf(b, " (api.key = %q)", f.Alias)
+		case f.Body != "":
+			fmt.Fprintf(b, " (api.body = %q)", f.Body)
 		}
 		b.WriteString(",\n")
 	}
@@ -456,6 +462,21 @@ func GenModel(t *rapid.T) *Model {
 	} else {
 		addStruct(mc, &mb, "struct", "Wide", nWide, 1, mainEnums)
 	}
+	// Elem is never the root struct of a request or response: it only occurs as the element of a list argument / result;
+	// its fields carry api.body, which must not touch their alias there (ApiBodyFastPath renames root fields only)
+	{
+		s := &Str{Full: "main.Elem", Kind: "struct"}
+		fs := mc.genFields(t, rapid.IntRange(1, 4).Draw(t, "nElem"), 0, mainEnums)
+		for i := range fs {
+			fs[i].Alias = ""
+			fs[i].Body = "b_" + fs[i].Name
+		}
+		s.Fields = fs
+		m.Structs[s.Full] = s
+		mb.WriteString("struct Elem {\n")
+		renderFields(&mb, s.Fields)
+		mb.WriteString("}\n\n")
+	}
 	mainStructs := []texpr{{"A", st("main.A"), false}, {"B", st("main.B"), false}, {"Item", st("main.Item"), false}, {"inc.Item", st("inc.Item"), false}, {"XItem", st("inc.Item"), false},
 		{"Wide", st("main.Wide"), false}, {"inc.Node", st("inc.Node"), false}}
 	mainErrs := []texpr{{"LocalErr", st("main.LocalErr"), false}, {"inc.Err", st("inc.Err"), false}}
@@ -471,6 +492,10 @@ func GenModel(t *rapid.T) *Model {
 			if i > 0 {
 				s.Extends = fmt.Sprintf("Svc%d", i-1)
 			}
+		}
+		if i == 0 {
+			le := &Ty{K: tm.LIST, Elem: st("main.Elem")}
+			s.Fns = append(s.Fns, Fn{Name: "elems", ArgID: 1, ArgName: "req", Arg: le, ArgText: "list<Elem>", Ret: le, RetText: "list<Elem>"})
 		}
 		renderSvc(&mb, s)
 		m.Svcs = append(m.Svcs, s)
